@@ -4,7 +4,7 @@ Only statements of the property (and non-vacuity examples) live here; helper lem
 Lemmas / Accept / Ops / Laws.  The state machine is `BV.C10.step` (Model.lean): one public mempool
 call or one block connect / disconnect notification handled by netsync.
 -/
-import BV.C10.Fresh
+import BV.C10.OrphanIndex
 import BV.Generated.C10
 namespace BV.C10
 open Spec Lemmas
@@ -187,6 +187,17 @@ theorem orphanBounds_step (pol : Policy) (st : State) (op : Op) (h : OrphanBound
 theorem orphanBounds_always (pol : Policy) (maturity mtp0 : Nat) (ops : List Op) :
     OrphanBounds pol (run pol (State.init maturity mtp0) ops).1.pool :=
   run_bounds pol ops _ (bounds_init pol maturity mtp0)
+
+/-! ### the orphan index agrees with the orphan pool -/
+
+/-- inductive step: `orphansByPrev = {(in, tx) | tx an orphan, in ∈ tx.ins}` after every operation -/
+theorem orphanIndexAgrees_step (pol : Policy) (st : State) (op : Op) (h : OrphanIndexAgrees st.pool) :
+    OrphanIndexAgrees (step pol st op).1.pool :=
+  (oia_iff _).2 (step_oia pol st op ((oia_iff _).1 h))
+
+theorem orphanIndexAgrees_always (pol : Policy) (maturity mtp0 : Nat) (ops : List Op) :
+    OrphanIndexAgrees (run pol (State.init maturity mtp0) ops).1.pool :=
+  (oia_iff _).2 (run_oia pol ops _ (oia_init maturity mtp0))
 
 /-! ### Minable -/
 
